@@ -2198,7 +2198,8 @@ double BW_MidiSequencer::seek(double seconds, const double granularity)
      */
     m_loop.caughtStart   = false;
 
-    m_loop.temporaryBroken = (seconds >= m_loopEndTime);
+    // Only a marked loop end can be left behind (without one the loop ends together with the song)
+    m_loop.temporaryBroken = (m_loopEndTime >= 0.0) && (seconds >= m_loopEndTime);
 
     while((m_currentPosition.absTimePosition < seconds) &&
           (m_currentPosition.absTimePosition < m_fullSongTimeLength))
